@@ -926,7 +926,8 @@ def run(ctx):
     plan = [("S1", 2), ("S3f", 2), ("S4", 2), ("S5cleanup", 2), ("S5init", 1),
             ("S6", 1), ("S8", 1), ("S9", 1), ("S2", 1)] if quick else \
         [("S1", 2), ("S3f", 2), ("S3", 2), ("S4", 2), ("S5cleanup", 2),
-         ("S5init", 2), ("S6", 2), ("S8", 2), ("S9", 1), ("S2", 2), ("S1", 3)]
+         ("S5init", 2), ("S6", 2), ("S8", 2), ("S9", 1), ("S2", 2), ("S1", 3), ("S8", 3),
+         ("S5cleanup", 3)]
     # (S9 stays at one preemption: with two, the driver can be held inside
     # the wait loop of its first command while virtual time jumps a whole
     # second past the handler's timed wait -- an artefact of the coarse
